@@ -7,7 +7,8 @@ FUNCTIONS = [_B + "BIPBBMD.confirmation[%s]" % k for k in ("OriginalBroadcastNPD
                                                           "DistributeBroadcastToNetwork", "RegisterForeignDevice")] + [
     _B + "BIPBBMD.register_foreign_device", _B + "BIPBBMD.process_task", _B + "BIPBBMD.delete_foreign_device_table_entry",
     _B + "BIPForeign.confirmation[Result]", _B + "BIPForeign.confirmation[ForwardedNPDU]", _B + "BIPForeign.process_task",
-    _B + "BIPForeign.indication[local broadcast]", _B + "BIPForeign._registration_expired", _B + "BIPForeign.unregister", _B + "BIPForeign.register"]
+    _B + "BIPForeign.indication[local broadcast]", _B + "BIPForeign._registration_expired", _B + "BIPForeign.unregister", _B + "BIPForeign.register",
+    _B + "BIPForeign.confirmation[Result, no BBMD configured]"]
 LEMMAS = []
 MIN_OBLIGATIONS = 30
 BOUNDED = "bounded.c13"
